@@ -2,6 +2,8 @@
 import PgModel.Gen
 namespace Pg.C15
 
+deriving instance DecidableEq for Except
+
 /-! ### History bookkeeping -/
 
 def fedCount (h : Hist) : Nat := (h.filter (fun e => e.2.isSome)).length
@@ -312,5 +314,75 @@ theorem live_dedup_nofb (env : Env) (inner : Algo) (hid md ma : Nat) (au : Bool)
           have hmem : (it, none) ∈ hist := List.mem_of_getElem? hi
           refine ⟨⟨si, ?_⟩, allKeyed_setAt hist i it _ (hkeyed _ hmem) hkeyed⟩
           rw [length_setAt, fedCount_setAt hist i it it _ hi, keysOf_setAt hist i it it none _ hi rfl]
+
+/-! ### Continuation of Deduping over Sweeping / seeded Random: proposals do not depend on counters -/
+
+/-- the attempt loop over Sweeping: result and sweep position do not depend on the inner counters -/
+theorem dedupLoop_sweeping_counters (env : Env) (hash : Nat → Nat) (c : Cache) (md : Nat) (auto : Bool)
+    (fuel : Nat) (a b a' b' : Nat) (l : Option Nat) :
+    ∃ r a2 b2 a2' b2' l2,
+      dedupLoop (propose env .sweeping) hash c md auto fuel (.sweeping a b l) = (r, .sweeping a2 b2 l2)
+      ∧ dedupLoop (propose env .sweeping) hash c md auto fuel (.sweeping a' b' l) = (r, .sweeping a2' b2' l2) := by
+  induction fuel generalizing a b a' b' l with
+  | zero => exact ⟨_, _, _, _, _, _, rfl, rfl⟩
+  | succ n ih =>
+    simp only [dedupLoop, propose]
+    cases hn : nextAfter env.space l with
+    | none => exact ⟨_, _, _, _, _, _, rfl, rfl⟩
+    | some d =>
+      simp only
+      split
+      · exact ⟨_, _, _, _, _, _, rfl, rfl⟩
+      · split
+        · split
+          · exact ⟨_, _, _, _, _, _, rfl, rfl⟩
+          · exact ⟨_, _, _, _, _, _, rfl, rfl⟩
+        · exact ih (a + 1) b (a' + 1) b' (some d)
+
+theorem proposeN_dedup_sweeping_counters (env : Env) (hid md ma : Nat) (au : Bool) (m : Nat)
+    (np nf : Nat) (c : Cache) (a b a' b' : Nat) (l : Option Nat) :
+    (proposeN env (.deduping .sweeping hid md ma au) m (.deduping np nf (.sweeping a b l) c)).1
+      = (proposeN env (.deduping .sweeping hid md ma au) m (.deduping np nf (.sweeping a' b' l) c)).1 := by
+  induction m generalizing np nf c a b a' b' l with
+  | zero => rfl
+  | succ m ih =>
+    obtain ⟨r, a2, b2, a2', b2', l2, h1, h2⟩ :=
+      dedupLoop_sweeping_counters env (env.hash hid) c md (au && needsFeedback .sweeping) ma a b a' b' l
+    simp only [proposeN, propose, h1, h2]
+    cases r with
+    | error e => simp only; rw [ih]
+    | ok it => simp only; rw [ih]
+
+/-- the attempt loop over Random: result and stream position do not depend on the inner counters -/
+theorem dedupLoop_random_counters (env : Env) (seed : Nat) (sd : Bool) (hash : Nat → Nat) (c : Cache) (md : Nat)
+    (auto : Bool) (fuel : Nat) (a b a' b' pos : Nat) :
+    ∃ r a2 b2 a2' b2' p2,
+      dedupLoop (propose env (.random seed sd)) hash c md auto fuel (.random a b pos) = (r, .random a2 b2 p2)
+      ∧ dedupLoop (propose env (.random seed sd)) hash c md auto fuel (.random a' b' pos) = (r, .random a2' b2' p2) := by
+  induction fuel generalizing a b a' b' pos with
+  | zero => exact ⟨_, _, _, _, _, _, rfl, rfl⟩
+  | succ n ih =>
+    simp only [dedupLoop, propose]
+    split
+    · exact ⟨_, _, _, _, _, _, rfl, rfl⟩
+    · split
+      · split
+        · exact ⟨_, _, _, _, _, _, rfl, rfl⟩
+        · exact ⟨_, _, _, _, _, _, rfl, rfl⟩
+      · exact ih (a + 1) b (a' + 1) b' (pos + 1)
+
+theorem proposeN_dedup_random_counters (env : Env) (seed : Nat) (sd : Bool) (hid md ma : Nat) (au : Bool) (m : Nat)
+    (np nf : Nat) (c : Cache) (a b a' b' pos : Nat) :
+    (proposeN env (.deduping (.random seed sd) hid md ma au) m (.deduping np nf (.random a b pos) c)).1
+      = (proposeN env (.deduping (.random seed sd) hid md ma au) m (.deduping np nf (.random a' b' pos) c)).1 := by
+  induction m generalizing np nf c a b a' b' pos with
+  | zero => rfl
+  | succ m ih =>
+    obtain ⟨r, a2, b2, a2', b2', p2, h1, h2⟩ :=
+      dedupLoop_random_counters env seed sd (env.hash hid) c md (au && needsFeedback (.random seed sd)) ma a b a' b' pos
+    simp only [proposeN, propose, h1, h2]
+    cases r with
+    | error e => simp only; rw [ih]
+    | ok it => simp only; rw [ih]
 
 end Pg.C15
